@@ -9,6 +9,8 @@ CONSTANTS
   M_CommitAfterAck = TRUE
   M_SkipOnlyOwnStream = TRUE
   M_SkipStrict = TRUE
+  GracefulStop = TRUE
+  M_StopSaves = TRUE
 VIEW view
-INVARIANTS TypeOK NeverAheadOnDisk CommittedWasDelivered AtLeastOnce
+INVARIANTS TypeOK NeverAheadOnDisk CommittedWasDelivered CleanStopSavesAll AtLeastOnce
 CHECK_DEADLOCK FALSE
